@@ -22,10 +22,13 @@ from vlib import core
 from vlib.coqterm import App
 from props import c01gen as G
 
-HEADER = ('From Coq Require Import List ZArith NArith Bool.\nFrom DV Require Import C01.Syntax C01.Spec C01.Impl.\nImport ListNotations.\nOpen Scope Z_scope.\n'
+HEADER = ('From Coq Require Import List ZArith NArith Bool.\nFrom DV Require Import C01.Syntax C01.Spec C01.Impl C01.Fuel.\nImport ListNotations.\nOpen Scope Z_scope.\n'
+          # the last component: no evaluation step ran out of fuel (coq/C01/Fuel.v), for the context, the Spec and the ImplModel; by
+          # C01_eval_fuel_monotone the compared values are then the values for EVERY larger fuel
           'Definition case (cx : list (N * expr)) (e : expr) :=\n'
           '  match run_impl 80 [[]] (ECtx cx) with\n'
-          '  | (VCtx c, _) => let r := run_impl 80 [c] e in Some (fst r, snd r, eval_spec 80 [c] e, c, eval cart_impl 80 [c] e)\n'
+          '  | (VCtx c, _) => let r := run_impl 80 [c] e in Some (fst r, snd r, eval_spec 80 [c] e, c, eval cart_impl 80 [c] e,\n'
+          '                    complete cart_impl 80 [[]] (ECtx cx) && complete cart 80 [c] e && complete cart_impl 80 [c] e)\n'
           '  | _ => None end.\n')
 
 
@@ -148,7 +151,7 @@ def run(ctx):
                           % (json.dumps(impl[i]['v'])[:150], json.dumps(r2.get('v', r2))[:150]), {'ctx': rq2['ctx'], 'e': rq2['e'], 'ctx_without': reqs[i]['ctx']}, impl=r2, model=impl[i]['v'])
     ctx.cov['free_name_independence_cases'] = len(ext_idx)
     model = ctx.run_model(HEADER, ['case [%s] %s' % ('; '.join('(%d%%N, %s)' % (n, G.coq(x)) for n, x in cx), G.coq(e)) for cx, e, _, _ in cases], shard_size=300)
-    matrix, poisoned, nulls, errs, skipped_resources = {}, 0, 0, 0, 0
+    matrix, poisoned, nulls, errs, skipped_resources, fuel_short = {}, 0, 0, 0, 0, 0
     for (cx, e, key, want), ri, rm, rq in zip(cases, impl, model, reqs):
         ctx.evaluations += 1
         case = {'ctx': rq['ctx'], 'e': rq['e']}
@@ -168,7 +171,10 @@ def run(ctx):
         if not (isinstance(rm, App) and rm.name == 'Some'):
             ctx.corr_broken('model could not build the input context', case, ri, str(rm))
             continue
-        rv, rs, sv, c, ev2 = rm.args[0]
+        rv, rs, sv, c, ev2, fuel_ok = rm.args[0]
+        if not fuel_ok:
+            fuel_short += 1          # fuel 80 did not cover this case: the model's value is not the fuel-independent one, nothing is compared
+            continue
         try:
             mv, spec, mv2 = mval(rv), mval(sv), mval(ev2)
         except Poison:
@@ -208,13 +214,15 @@ def run(ctx):
         if len(ctx.samples) < 5 and mv is not None and len(rq['e']) > 40:
             ctx.sample({'ctx': rq['ctx'], 'e': rq['e'], 'value': iv})
     pairs = len(matrix)
+    if fuel_short * 100 > len(cases):
+        ctx.broken.append('fuel 80 does not cover %d of %d generated cases (complete = false): raise the fuel of the model run' % (fuel_short, len(cases)))
     return ctx.finish(
         rule='first the implicit names item/partial against every way of binding them outside (%d cases) and a systematic matrix: every operand position of every construct filled with every construct that the typed generator can put there; then typed random ASTs of the core fragment (depth up to %d) over literals, arithmetic, comparison, and/or, if, between, in (values, unary tests, ranges, lists), lists, contexts '
              '(later entries using earlier ones), paths, filters (boolean/index/item/context entries), for (lists, ascending/descending ranges, empty and scalar domains, partial), some/every, '
              'function definition and positional/named invocation, with ~4%% ill-typed operands and nulls; free names bound in an input context to numbers, strings, booleans, nulls, lists, contexts, functions; '
              'rendered fully parenthesised; non-trivial = distinct expression text with a non-null result; cases whose value the integer model does not compute (inexact division/power) are skipped' % (len(shad), depth),
         extra_cov={'exhaustive': False, 'nesting_pairs_covered': pairs, 'systematic_parent_position_x_child_construct_cases': len(sysc),
-                   'systematic_pairs_not_constructible_by_the_typed_generator': len(sys_missing), 'skipped_not_computed_by_model': poisoned, 'skipped_resource_limit': skipped_resources, 'null_results': nulls, 'parse_errors': errs,
+                   'systematic_pairs_not_constructible_by_the_typed_generator': len(sys_missing), 'skipped_not_computed_by_model': poisoned, 'skipped_fuel_80_not_enough': fuel_short, 'skipped_resource_limit': skipped_resources, 'null_results': nulls, 'parse_errors': errs,
                    'constructs': sorted({k[1] for k in matrix})},
         assumptions=['numbers in generated expressions are small integers (decimal arithmetic is C02\'s subject)', 'names are single words (C10 covers multi-word names)',
                      'built-in functions and temporal values are outside this model (C08, C14, C15)'])
@@ -243,6 +251,12 @@ MANIFEST = dict(
          'that occur in the expression (C01_depends_only_on_occurring_names, C01_unrelated_bindings_irrelevant), provided the function values bound to those names mention only such names in their bodies '
          '(bodies run in the caller\'s scope: known finding dynamic-scope; C01_dynamic_scope_witness shows the proviso is needed); stated for occurring rather than free names because the code can look a bound '
          'variable up outside when an empty domain is skipped (C01_bound_name_leak_witness, known finding empty-domain). The same law is also evaluated on the implementation\'s own answers. '
+         'Fuel (coq/C01/Fuel.v): the semantics is defined with fuel and answers a marker (VPoison) when it runs out; the marker is shared with numbers the model does not compute and is not always '
+         'propagated, so "the value is not the marker" does NOT imply that the fuel was enough (C01_value_monotonicity_refuted: [1] = [1] is false at fuel 2, true from fuel 3 on). Proved instead: the predicate '
+         'complete (no evaluation step took the out-of-fuel branch) is monotone in the fuel and from there on the value is the same for every larger fuel, for the semantics and the machine '
+         '(C01_eval_fuel_monotone, C01_machine_fuel_monotone); any fuel above the nesting depth is enough for expressions that evaluate no invocation (C01_fuel_sufficient); with invocations no bound in the '
+         'expression text exists because a function bound to a name can call itself (C01_recursion_never_completes: VPoison for every fuel; C01_recursion_countdown: the bound depends on the argument). '
+         'The check evaluates complete at its fuel (80) for every generated case, so the compared model values are the fuel-independent ones. '
          'The model is tied to feel-evaluator by evaluating thousands of generated expressions with both and comparing values.',
     note='Trusted: Coq kernel + vm_compute, hand-written model of builders.rs/iterations.rs (correspondence-checked), FEEL text rendering of ASTs, the real parser (C06 covers it). '
          'Numbers are integers in the model; decimal arithmetic, built-ins and temporal values are other properties. Interpretive choices listed in coq/C01/Spec.v.')
